@@ -1,4 +1,5 @@
 import HeimdallModel.Lemmas.Pipeline
+import HeimdallModel.Lemmas.HttpChain
 /-!
 # C01 — a request is allowed only after its whole effective pipeline succeeded
 
@@ -299,6 +300,161 @@ theorem c01_verdict_independent_of_log_level (ep : EntryPoint) (cfg : Cfg) (leve
 /-- a witness the tie replays at every level: a non-evaluable condition on a step that is not continue-on-error -/
 example : answer .decision { cfg with logLevel := .trace } {} 200
     (some { completing with finalizers := [⟨"hdr", .broken, .ok, false⟩] }) = .http 503 false := by decide
+
+/-! ## The response writer: headers set in front of the handler, the implicit `200 OK`, the CORS middleware
+
+`serve` above is the service handler.  In the proxy service the CORS middleware (`serve.proxy.cors`) runs in front of
+it — and in front of nothing else that matters here: it sits *behind* the recovery middleware — and puts `Vary: Origin`
+(and `Access-Control-*` for an allowed origin) into the response before the rule is looked up.  `Model/HttpChain.lean`
+threads the `http.ResponseWriter` through that chain; a chain that returns without `WriteHeader` is answered by
+net/http with `200 OK`.  `serveChain` is what the correspondence check compares with the real services. -/
+
+/-- **Every error is written, whatever is already in the header map.**  On a response writer on which nothing has been
+sent yet (no status line, no body, nothing relayed) — with *any* headers already set by whoever ran before — the error
+translator (`HandleError`, called by the service handler and by the recovery middleware) writes the status of the
+error's class: the reply is exactly `writeError`'s.  There is no state of the header map in which it "leaves the
+response alone" and net/http's implicit `200` goes out. -/
+theorem c01_error_written_whatever_headers_set (cfg : Cfg) (view : ReqView) (e : Err) (rw : RW)
+    (h : rw.fresh = true) :
+    (cfg.handleError view e rw).status = some (cfg.httpStatus (classify e)) ∧
+    (cfg.handleError view e rw).reply = cfg.writeError view e :=
+  ⟨handleError_status cfg view e rw h, handleError_reply cfg view e rw h⟩
+
+/-- the hypothesis is satisfiable by a writer whose header map is not empty (what the CORS middleware leaves behind);
+the error is written on it … -/
+example : (({} : RW).set ["Vary", "Access-Control-Allow-Origin"]).fresh = true ∧
+    ((cfg.handleError {} (.ofKind .authentication) (({} : RW).set ["Vary", "Access-Control-Allow-Origin"])).reply).resp =
+      .http 418 false := by decide
+/-- … and the statement is not empty: had the translator returned without writing, the caller would have got a
+positive answer -/
+example : ((({} : RW).set ["Vary"]).reply).resp = .http 200 false ∧ ((({} : RW).set ["Vary"]).reply).resp.positive = true := by
+  decide
+
+/-- **The reply of the handler does not depend on the headers set in front of it.**  Run the service handler (inside the
+recovery middleware) on two response writers on which nothing has been sent and whose header maps are arbitrary: same
+reply, same executed mechanisms, same recorded pipeline error — namely those of `serve` — for every rule, outcome
+vector (incl. panics), error pipeline, configuration, for the decision and the proxy service. -/
+theorem c01_reply_independent_of_headers_already_set (proxy : Bool) (cfg : Cfg) (view : ReqView) (up : Nat)
+    (found : Option Rule) (rw rw' : RW) (h : rw.fresh = true) (h' : rw'.fresh = true) :
+    (handlerRW proxy cfg view up found rw).1.reply = (handlerRW proxy cfg view up found rw').1.reply ∧
+    (handlerRW proxy cfg view up found rw).2 = (handlerRW proxy cfg view up found rw').2 ∧
+    (handlerRW proxy cfg view up found rw).1.reply = (serveHTTP proxy cfg view up found).1 := by
+  have h1 := handlerRW_reply proxy cfg view up found rw h
+  have h2 := handlerRW_reply proxy cfg view up found rw' h'
+  have e1 := congrArg Prod.fst h1
+  have e2 := congrArg Prod.fst h2
+  have f1 := congrArg Prod.snd h1
+  have f2 := congrArg Prod.snd h2
+  simp only at e1 e2 f1 f2
+  exact ⟨e1.trans e2.symm, f1.trans f2.symm, e1⟩
+
+example : (({} : RW).fresh = true) ∧ ((({} : RW).set ["Vary"]).fresh = true) := by decide
+
+/-- **The whole chain is the service handler, except for preflight requests.**  Unless the request is a CORS preflight
+request at a proxy with `serve.proxy.cors` configured, the caller observes exactly `serve` — so every theorem above
+speaks about what the caller of the real chain gets, with or without CORS, for every `Origin` header. -/
+theorem c01_chain_is_handler (ep : EntryPoint) (cfg : Cfg) (view : ReqView) (up : Nat) (found : Option Rule)
+    (h : ep ≠ .proxy ∨ cfg.cors = none ∨ view.preflight = false) :
+    serveChain ep cfg view up found = serve ep cfg view up found :=
+  serveChain_eq_serve ep cfg view up found ((preflightAnswered_false_iff ep cfg view).mpr h)
+
+/-- a failed pipeline behind a CORS middleware that has granted the origin: refused like without CORS -/
+example : chainAnswer .proxy { cfg with cors := some { origins := ["https://app.c01.test"] } }
+      { origin := some "https://app.c01.test" } 200 (some failing) = .http 303 false ∧
+    chainAnswer .proxy { cfg with cors := some {} } {} 200 none = .http 404 false ∧
+    chainAnswer .proxy { cfg with cors := some {} } {} 200 (some panicking) = .http 503 false ∧
+    (chainRW true { cfg with cors := some { origins := ["https://app.c01.test"] } }
+      { origin := some "https://app.c01.test" } 200 (some failing)).1.headers =
+      ["Vary", "Access-Control-Allow-Origin", "Location"] := by decide
+
+/-- **Soundness of the whole chain.**  A positive answer at any entry point, with or without CORS, for any `Origin`
+header and method, is given only if a rule or the default rule applied and its whole effective pipeline completed — or
+the request is a preflight request answered by the CORS middleware of the proxy (the operator configured
+`serve.proxy.cors`): then the answer is the bare `204` of the middleware, nothing is forwarded, no rule was looked up, no
+mechanism ran. -/
+theorem c01_chain_sound (ep : EntryPoint) (cfg : Cfg) (view : ReqView) (up : Nat) (found : Option Rule)
+    (hcfg : cfg.errorCodesNonSuccess = true) (hred : redirectsNonSuccess found = true)
+    (h : (chainAnswer ep cfg view up found).positive = true) :
+    (∃ r, found = some r ∧ Completed r) ∨
+    (ep = .proxy ∧ cfg.cors ≠ none ∧ view.preflight = true ∧
+      serveChain ep cfg view up found = ({ resp := .http 204 false }, {})) := by
+  cases hp : preflightAnswered ep cfg view with
+  | false =>
+    left
+    unfold chainAnswer at h
+    rw [serveChain_eq_serve ep cfg view up found hp] at h
+    exact c01_sound ep cfg view up found hcfg hred h
+  | true =>
+    right
+    refine ⟨?_, ?_, ?_, serveChain_preflight ep cfg view up found hp⟩
+    · cases ep <;> simp_all [preflightAnswered]
+    · cases hc : cfg.cors <;> simp_all [preflightAnswered]
+    · cases hv : view.preflight <;> simp_all [preflightAnswered]
+
+/-- both disjuncts occur: a completed pipeline behind CORS; a preflight request for a path no rule matches -/
+example : (chainAnswer .proxy { cfg with cors := some {} } { origin := some "https://app.c01.test" } 204
+      (some completing)).positive = true ∧
+    chainAnswer .proxy { cfg with cors := some {} } { origin := some "https://app.c01.test", preflight := true } 200 none =
+      .http 204 false ∧
+    -- without CORS the same OPTIONS request goes through the rule lookup like any other
+    chainAnswer .proxy cfg { origin := some "https://app.c01.test", preflight := true } 200 none = .http 404 false ∧
+    -- and the decision service ignores `serve.decision.cors`
+    chainAnswer .decision { cfg with cors := some {} } { preflight := true } 200 none = .http 404 false := by decide
+
+/-- **Nothing reaches the upstream unless the pipeline completed — for the whole chain, no side condition, preflight
+requests included.** -/
+theorem c01_chain_forwarded_only_if_completed (ep : EntryPoint) (cfg : Cfg) (view : ReqView) (up : Nat)
+    (found : Option Rule) (h : (chainAnswer ep cfg view up found).forwarded = true) :
+    ep = .proxy ∧ ∃ r, found = some r ∧ Completed r ∧ r.hasBackend = true := by
+  cases hp : preflightAnswered ep cfg view with
+  | false =>
+    unfold chainAnswer at h
+    rw [serveChain_eq_serve ep cfg view up found hp] at h
+    exact c01_forwarded_only_if_completed ep cfg view up found h
+  | true =>
+    unfold chainAnswer at h
+    rw [serveChain_preflight ep cfg view up found hp] at h
+    cases h
+
+example : (chainAnswer .proxy { cfg with cors := some { origins := ["*"], allowCredentials := true } }
+    { origin := some "https://evil.c01.test" } 204 (some completing)).forwarded = true := by decide
+
+/-- **A failed pipeline is refused by the whole chain**: no rule, or a pipeline that did not complete, and the request
+is not a preflight request answered by the proxy's CORS middleware ⇒ no success response, nothing forwarded — whatever
+CORS configuration and `Origin` header. -/
+theorem c01_chain_failure_refused (ep : EntryPoint) (cfg : Cfg) (view : ReqView) (up : Nat) (found : Option Rule)
+    (hcfg : cfg.errorCodesNonSuccess = true) (hred : redirectsNonSuccess found = true)
+    (hfail : ∀ r, found = some r → ¬ Completed r)
+    (hreq : ep ≠ .proxy ∨ cfg.cors = none ∨ view.preflight = false) :
+    (chainAnswer ep cfg view up found).success = false ∧ (chainAnswer ep cfg view up found).forwarded = false := by
+  unfold chainAnswer
+  rw [c01_chain_is_handler ep cfg view up found hreq]
+  exact c01_failure_refused ep cfg view up found hcfg hred hfail
+
+example : ({ cfg with cors := some {} } : Cfg).errorCodesNonSuccess = true ∧ redirectsNonSuccess (some failing) = true ∧
+    ¬ Completed failing ∧ ((EntryPoint.proxy ≠ .proxy) ∨ ({ cfg with cors := some {} } : Cfg).cors = none ∨
+      ({ origin := some "https://app.c01.test" } : ReqView).preflight = false) :=
+  ⟨by decide, by decide, fun h => absurd ((completedB_iff _).mpr h) (by decide), Or.inr (Or.inr rfl)⟩
+
+/-- **CORS configuration and `Origin` header never change what the caller of a non-preflight request gets**: replace
+`serve.<service>.cors` by any other configuration (or none) and the `Origin` header by any other value (or none) —
+reply and executed mechanisms of the whole chain are the same, at every entry point, for every rule and outcome
+vector.  (The headers of the response do change — `example` below — only not the status, the forwarding, the body.) -/
+theorem c01_verdict_independent_of_cors (ep : EntryPoint) (cfg : Cfg) (view : ReqView) (up : Nat) (found : Option Rule)
+    (cors : Option Cors) (origin : Option String) (hp : view.preflight = false) :
+    serveChain ep { cfg with cors := cors } { view with origin := origin } up found =
+      serveChain ep cfg view up found := by
+  rw [c01_chain_is_handler ep cfg view up found (Or.inr (Or.inr hp)),
+    c01_chain_is_handler ep { cfg with cors := cors } { view with origin := origin } up found (Or.inr (Or.inr hp))]
+  have := serve_cors ep cfg cors view origin view.preflight up found
+  simpa using this
+
+example : frontHeaders .proxy { cfg with cors := some { origins := ["https://app.c01.test"] } }
+      { origin := some "https://app.c01.test" } = ["Vary", "Access-Control-Allow-Origin"] ∧
+    frontHeaders .proxy { cfg with cors := some { origins := ["https://app.c01.test"] } }
+      { origin := some "https://evil.c01.test" } = ["Vary"] ∧
+    frontHeaders .proxy cfg { origin := some "https://app.c01.test" } = [] ∧
+    frontHeaders .decision { cfg with cors := some {} } { origin := some "https://app.c01.test" } = [] := by decide
 
 /-- **From the configuration to the answer**: whatever rule set and default rule were loaded (rejected ones never
 reach a request), a positive answer means that the matching rule or the default rule applied and its effective
